@@ -14,13 +14,19 @@ cmd=$(python3 -c "import json;m=json.load(open('$d/meta.json'));print(m['demo'][
 files=$(python3 -c "import json;m=json.load(open('$d/meta.json'));print(' '.join(m['files_touched']))")
 log=$d/verify.log; : > $log
 cd $W
+mkdir -p $(dirname $place)
 cp $d/demo.rs $place
+case "$place" in
+  e2e/src/tests/*) stem=$(basename $place .rs); grep -q "mod $stem;" e2e/src/tests/mod.rs || echo "mod $stem;" >> e2e/src/tests/mod.rs;;
+esac
 echo "== pristine: $cmd" >> $log
 timeout 3000 bash -c "$cmd" >> $log 2>&1; r0=$?
 git apply $d/patch.diff || { echo "patch does not apply" | tee -a $log; exit 2; }
 echo "== mutated: $cmd" >> $log
 timeout 3000 bash -c "$cmd" >> $log 2>&1; r1=$?
 rm -f $place
+git checkout -q -- e2e/src/tests/mod.rs 2>/dev/null
+git apply $d/patch.diff 2>/dev/null || true
 tests_ok=1
 for crate in command lib bin; do
   if echo "$files" | grep -q "^$crate/\| $crate/"; then
